@@ -493,6 +493,24 @@ def values(ctx):
                                 dotted(d.value.func) in ("enumerate", "range"):
                             positional = True
                 by_mode = dv.reads("self.samples_dict")
+                # the value itself must come from the engine's own record of outcomes, and be the latest one
+                vv = derives(f.node, st.value, nd.id)
+                foreign = [a for a in vv.attrs if not a.startswith("self.")] + \
+                          [d.var for d in vv.defs if d.kind == "for" and d.value is not None and
+                           not derives(f.node, d.value, d.node).reads("self.samples_dict")
+                           and not derives(f.node, d.value, d.node).reads("self.samples")]
+                own = vv.reads("self.samples_dict") or vv.reads("self.samples")
+                ok_src = own and not any(x.split(".")[0] in ("prev", "program", "p") for x in vv.attrs)
+                ctx.ob(rule, f.site, ok_src, "" if ok_src else
+                       f"`{ast.unparse(st)[:60]}`: the measured value is taken from a Program object ({sorted(set(vv.attrs))[:3]}) "
+                       "instead of the engine's own sample record; a program shared between engines leaks outcomes "
+                       "of another engine", role="value-source", line=st.lineno)
+                last = isinstance(st.value, ast.Subscript) and ast.unparse(st.value.slice).replace(" ", "") in ("-1",) or \
+                    (isinstance(st.value, ast.Subscript) and "len(" in ast.unparse(st.value.slice) and "-1" in ast.unparse(st.value.slice))
+                if isinstance(st.value, ast.Subscript) and isinstance(st.value.slice, (ast.Constant, ast.UnaryOp)):
+                    ctx.ob(rule, f.site, last, "" if last else f"`{ast.unparse(st.value)}` is not the most recent outcome of "
+                           "the mode (outcomes are appended in measurement order; the last one is current)",
+                           role="value-latest", line=st.lineno)
                 if positional:
                     ok, msg = False, (f"reg_refs key `{ast.unparse(key)}` is a position in the samples array (rows are "
                                       "shots), not a mode index: feed-forward across programs reads the wrong value")
